@@ -47,6 +47,18 @@ def loops(F, R):
         # stall counter drives Bland's rule
         lets = {sexp(s["pat"]): sexp(s["init"]) for s in walk(w["body"]) if s.get("k") == "Let" and s.get("init") is not None}
         R.ob("W-STATE", name + ":bland-trigger", lets.get("use_bland") == "(stalls > stall_limit)" and "use_bland)" in sexp(ms[0]["scrut"]) if ms else False, F.loc(f, w), "Bland's rule must be switched on by the stall counter and passed to the step: %s" % lets.get("use_bland"))
+        # W-STALL: the counter is reset only when the objective moved; otherwise Bland's rule would be switched off in the
+        # middle of a degenerate sequence and the anti-cycling argument (Bland persists while the vertex stalls) is lost
+        import flow, re as _re
+        moved = lambda g: any((_re.fullmatch(r"(math_utils::)?float_eq\(self\.current_value, last_value\)", c) and b is False) or (_re.fullmatch(r"(math_utils::)?float_ne\(self\.current_value, last_value\)", c) and b is True) for c, b in g)
+        stalled = lambda g: any((_re.fullmatch(r"(math_utils::)?float_eq\(self\.current_value, last_value\)", c) and b is True) or (_re.fullmatch(r"(math_utils::)?float_ne\(self\.current_value, last_value\)", c) and b is False) for c, b in g)
+        ws_ = flow.guarded_writes(w["body"], "stalls")
+        bad_w = [(op, rhs, [c for c, _ in g]) for op, rhs, g in ws_ if not ((op == "+=" and rhs == "1" and stalled(g)) or (op == "=" and rhs == "0" and moved(g)))]
+        R.ob("W-STATE", name + ":stall-writes", not bad_w and any(op == "+=" for op, _, _ in ws_) and any(op == "=" for op, _, _ in ws_), F.loc(f, w),
+             "inside the loop `stalls` is only incremented when the objective did not move and only reset when it did (a reset anywhere else switches Bland's rule off inside a degenerate sequence): %s" % (bad_w or "%d writes ok" % len(ws_)))
+        lv = flow.guarded_writes(w["body"], "last_value")
+        bad_l = [(op, rhs) for op, rhs, g in lv if not (op == "=" and rhs == "self.current_value" and moved(g))]
+        R.ob("W-STATE", name + ":last-value-writes", not bad_l and len(lv) >= 1, F.loc(f, w), "`last_value` follows the objective only when it moved: %s" % (bad_l or "ok"))
         R.ob("W-STATE", name + ":stall-count", "stalls += 1" in sexp(w["body"]) and "stalls = 0" in sexp(w["body"]) and "float_eq(self.current_value, last_value)" in sexp(w["body"]), F.loc(f, w), "stalls count consecutive pivots that leave the objective unchanged")
 
 
